@@ -119,6 +119,32 @@ def disk_listing(directory, split):
     return sorted(out)
 
 
+def _in_child(fn):
+    """run fn() in a forked process (its own memory from here on) and return its pickled result"""
+    import pickle
+    r, w = os.pipe()
+    pid = os.fork()
+    if pid == 0:
+        try:
+            os.close(r)
+            try:
+                data = pickle.dumps(("ok", fn()))
+            except BaseException as e:       # noqa
+                data = pickle.dumps(("err", core.exc_text(e)))
+            with os.fdopen(w, "wb") as f:
+                f.write(data)
+        finally:
+            os._exit(0)
+    os.close(w)
+    with os.fdopen(r, "rb") as f:
+        data = f.read()
+    os.waitpid(pid, 0)
+    kind, val = pickle.loads(data)
+    if kind == "err":
+        raise RuntimeError("segment in fresh process failed: " + val)
+    return val
+
+
 def replay_sequence(run, ct, rng, pool, seq, cfg):
     """returns (judge case, desc) ; harness-side validity checks raise violations"""
     from cotengra import reusable
@@ -136,7 +162,12 @@ def replay_sequence(run, ct, rng, pool, seq, cfg):
         if kind == "hyper":
             return cls(methods=["greedy"], max_repeats=2, optlib="random", parallel=False,
                        slicing_opts={"target_slices": 2}, **kw)
-        return cls(max_repeats=2, seed=rng.randrange(1000), **kw)
+        return cls(max_repeats=2, seed=rng.randrange(1000), parallel=False, **kw)
+
+    viol = []
+
+    def _viol(msg, d, tags=()):
+        viol.append((msg, set(tags)))
 
     ow_py = {"no": False, "yes": True, "improved": "improved"}[cfg["overwrite"]]
     hashes_raw = [reusable.hash_contraction(p.c_inputs(), p.c_output(), p.c_sizes(), cfg["hash"]) for p in pool]
@@ -145,13 +176,22 @@ def replay_sequence(run, ct, rng, pool, seq, cfg):
     events = []
     scores_seen = []
     raw = []
-    opt = new_opt(ow_py, False)
-    try:
-        for step, q in enumerate(seq):
-            if q == 0:
-                opt = new_opt(ow_py, False)
-                raw.append({"kind": "restart"})
-                continue
+    # split the sequence into segments at the restarts; a segment runs in this process (quick tier)
+    # or in a freshly forked process that builds its own optimizer object (cfg["fresh_process"])
+    segments, cur = [], []
+    for step, q in enumerate(seq):
+        if q == 0:
+            segments.append(cur)
+            cur = []
+        else:
+            cur.append((step, q))
+    segments.append(cur)
+
+    def do_segment(seg):
+        nonlocal raw
+        raw = []
+        opt = new_opt(ow_py, False)
+        for step, q in seg:
             net = pool[q - 1]
             # cache_only is exercised on the last query of a sequence with probability 1/3
             co = cfg["cache_only_last"] and step == len(seq) - 1
@@ -170,7 +210,8 @@ def replay_sequence(run, ct, rng, pool, seq, cfg):
                 outcome = "KeyError"
             ran = rec.runs > runs0
             h = opt.hash_query(net.c_inputs(), net.c_output(), net.c_sizes())[0]
-            con = opt._cache._mem_cache.get(h)
+            mc_ = opt._cache._mem_cache
+            con = mc_.get(h) or mc_.get(h if isinstance(h, tuple) else (h,))
             if outcome == "tree":
                 if ran and rec.answer_con is None and not use_call:
                     answer = rec.last_run_con
@@ -194,37 +235,54 @@ def replay_sequence(run, ct, rng, pool, seq, cfg):
                     for ix in answer["sliced_inds"]:
                         rebuilt.remove_ind_(ix)
                 except Exception as e:
-                    run.violation(f"stored entry is not valid for the queried contraction ({core.exc_text(e)}) "
+                    _viol(f"stored entry is not valid for the queried contraction ({core.exc_text(e)}) "
                                   f"query={net.kind} eq={net.eq()} stored path={answer['path']} sliced={answer['sliced_inds']}",
                                   desc, tags=tags | {"stored-entry-invalid-for-query"})
                     continue
                 if not ok_complete:
-                    run.violation(f"stored path does not give a complete tree of the query {net.kind} eq={net.eq()}", desc,
+                    _viol(f"stored path does not give a complete tree of the query {net.kind} eq={net.eq()}", desc,
                                   tags=tags | {"stored-entry-invalid-for-query"})
                 if tree is not None:
                     if tuple(map(tuple, tree.inputs)) != net.c_inputs() or tuple(tree.output) != net.c_output() \
                             or dict(tree.size_dict) != net.c_sizes() or not tree.is_complete():
-                        run.violation(f"returned tree is not a complete tree of the queried contraction {net.kind}",
+                        _viol(f"returned tree is not a complete tree of the queried contraction {net.kind}",
                                       desc, tags=tags | {"wrong-tree"})
                     elif tuple(tree.get_path()) != tuple(map(tuple, answer["path"])) or \
                             tuple(tree.sliced_inds) != tuple(answer["sliced_inds"]):
-                        run.violation(f"returned tree differs from the stored entry (path / sliced indices) for {net.kind}",
+                        _viol(f"returned tree differs from the stored entry (path / sliced indices) for {net.kind}",
                                       desc, tags=tags | {"tree-differs-from-entry"})
                 if path is not None and tuple(map(tuple, path)) != tuple(map(tuple, answer["path"])):
-                    run.violation(f"returned path differs from the stored path for {net.kind}", desc, tags=tags | {"path-differs"})
+                    _viol(f"returned path differs from the stored path for {net.kind}", desc, tags=tags | {"path-differs"})
                 # the stored score must be a score of the tree rebuilt for THIS query
                 if kind == "hyper":
                     rebuilt.set_default_objective(opt.minimize)
                     sc = rebuilt.get_score()
                     if abs(sc - answer["score"]) > 1e-9 * max(1, abs(sc)):
                         creator = raw and [r for r in raw if r.get("kind") == "query" and r.get("ran") and r.get("answer_run") == answer["verif_run"]]
-                        run.violation(f"stored score {answer['score']:.6f} is not the score {sc:.6f} of the answer rebuilt for the "
+                        _viol(f"stored score {answer['score']:.6f} is not the score {sc:.6f} of the answer rebuilt for the "
                                       f"query {net.kind} (eq={net.eq()} sizes={net.c_sizes()}): entry shared between "
                                       f"contractions for which it is not equally valid", desc,
                                       tags=tags | {"stored-score-invalid-for-query"})
+        return raw, viol, rec.runs, rec.last_run_con
+
+    try:
+        all_raw = []
+        for si, seg in enumerate(segments):
+            if si > 0:
+                all_raw.append({"kind": "restart"})
+            if cfg.get("fresh_process") and directory:
+                r_, v_, runs_, last_ = _in_child(lambda: do_segment(seg))
+                rec.runs, rec.last_run_con = runs_, last_
+                viol[:] = v_
+            else:
+                r_, _, _, _ = do_segment(seg)
+            all_raw += r_
+        raw = all_raw
     finally:
         if directory:
             shutil.rmtree(directory, ignore_errors=True)
+    for msg, tg in viol:
+        run.violation(msg, desc, tags=tg)
     # scores -> ranks
     vals = sorted(set(e["_runscore"] for e in raw if e.get("_runscore") is not None))
     rank = {v: i + 1 for i, v in enumerate(vals)}
@@ -265,7 +323,8 @@ def run(run):
         cfg = {"kind": rng.choice(["hyper", "hyper", "rgreedy"]), "hash": rng.choice(["a", "a", "b"]),
                "disk": rng.random() < 0.7, "split": rng.choice([True, False, "auto"]),
                "overwrite": rng.choice(["no", "no", "yes", "improved", "improved"]),
-               "cache_only_last": rng.random() < 0.3, "via_call": rng.random() < 0.4}
+               "cache_only_last": rng.random() < 0.3, "via_call": rng.random() < 0.4,
+               "fresh_process": (not quick) or rng.random() < 0.15}
         pool = rng.choice(pools)
         run.count()
         run.nontrivial((str(seq), str(cfg), pool[0].eq()))
